@@ -83,7 +83,7 @@ fn render(toks: &[Tok]) -> String {
 
 /// a string the token list matches (members chosen by selectors)
 fn instance(toks: &[Tok], sels: &[u16]) -> String {
-    const FILL: [&str; 7] = ["", "1", "x", "-2.0", "ab", "1.0nb1", "é"];
+    const FILL: [&str; 10] = ["", "1", "x", "-2.0", "ab", "1.0nb1", "é", "٣", "²x", "\\"];
     let mut s = String::new();
     for (k, t) in toks.iter().enumerate() {
         let sel = sels[k % sels.len()].wrapping_add((k as u16).wrapping_mul(40503));
